@@ -27,6 +27,9 @@ var hotKinds, hotUnits uint64
 
 var calHits int
 
+// wantOpHashes: every done event carries one digest per operation (used to locate an O8 difference).
+var wantOpHashes bool
+
 // calibrate runs every operation once or twice on a few values of every kind, sequentially, and prints which kinds
 // reach "hot" statements.  It runs in a process of its own: nothing of what it warms up is seen by any run.
 func calibrate() {
@@ -226,6 +229,17 @@ func executeRun(s *RunSpec, runIdx int, racePath string) (doneEv, *violEv) {
 			d.Shared++
 		}
 	}
+	if wantOpHashes {
+		renderNormalised = true
+		for t := range conc.res {
+			for i := range conc.res[t] {
+				op := &s.Tasks[t][i]
+				d.OpNames = append(d.OpNames, fmt.Sprintf("task %d entry %d %s/%s", t, i, opNames[op.K], kindName(s, conc, op)))
+				d.OpHashes = append(d.OpHashes, fmt.Sprintf("%016x", fnv(0xcbf29ce484222325, render(&conc.res[t][i]))))
+			}
+		}
+		renderNormalised = false
+	}
 	sharedMsgs := 0
 	for t := range s.Tasks {
 		d.Ops += len(s.Tasks[t])
@@ -352,6 +366,8 @@ func main() {
 	forceOp := flag.Bool("forceop", false, "operation-granular scheduling for every run (retry of a stuck batch)")
 	wd := flag.Int("watchdog", 60, "seconds after which a single run is declared stuck (exit 5)")
 	cpuprof := flag.String("cpuprofile", "", "write a CPU profile (development aid)")
+	only := flag.Int("only", -1, "execute only this run of the batch (in a process without history)")
+	opHashes := flag.Bool("ophashes", false, "report one digest per operation with every run")
 	calib := flag.Bool("calibrate", false, "print which packet kinds and unit operations reach statements that touch shared state")
 	hot := flag.String("hot", "", "result of the calibration pass (kinds:units, hexadecimal masks)")
 	flag.Parse()
@@ -422,7 +438,11 @@ func main() {
 		emit(specs[:n])
 		return
 	}
+	wantOpHashes = *opHashes
 	for j, s := range specs {
+		if *only >= 0 && j != *only {
+			continue
+		}
 		emit(startEv{Ev: "start", Batch: *batch, Run: j, Seed: s.Seed, Cold: s.Cold})
 		d, ve := executeRun(s, j, racePath)
 		emit(d)
